@@ -406,10 +406,11 @@ def run(run):
         raise xl.MachineryError(f'seeded generator disagrees with the specification rendering: {bad[:3]}')
     run.sample({'trace_event_formula': ''.join(map(chr, res[0][0]['text'])), 'verdict': res[0][1]})
     run.notes['trace_events'] = len(recorded)
-    # the tokenizer as a state machine (XlTokenizer): TLC proves it refines the syntax specification on the well-formed
-    # families and runs it on every short string; both directions of conformance with xlcalculator/tokenizer.py
-    from checks import tokens
-    tokens.run_all(run, quick)
+    # the front end as two composed state machines (XlTokenizer, XlParser): TLC proves that they refine the syntax
+    # specification on the well-formed families and runs them on every short string; both directions of conformance
+    # with xlcalculator/tokenizer.py and parser.py (token list, reverse polish list, tree)
+    from checks import parsemachine
+    parsemachine.run_all(run, quick)
     run.rule = ('cases = done-states of MC_C02: every atom kind in every context in every context (two levels), every string of '
                 'length <= StrLen over the tokenizer delimiter alphabet in 6 contexts, every reference spelling, call arities 0..4 '
                 'with nested calls and @, every gap class x gap kind on skeleton formulas; expected tree = Erase(ast) with numeric '
